@@ -293,6 +293,11 @@ func C02(p *core.Program, r *core.Report) {
 	checkTextViewsAreInnerText(p, r, "O9")
 	// ---- O10: no word is made of two
 	checkNoTrimmedConcatenation(p, r, "O10")
+	// ---- O11: neighbouring text nodes never run together in the text view (shared with C04-V5)
+	checkInnerTextCollector(p, r, "O11")
+	// ---- O12: the clone reaches the visibility gate of the walk as it was copied: nothing but the
+	// two reviewed removal passes touches it before (shared with C18-T7)
+	checkConvertWalksFaithfulClone(p, r, "O12")
 	// ---- O8: nothing is emitted twice or from outside the gate: whole subtrees are copied into
 	// the output only through the per-node gate of GetOutputNodes (whose decision list conforms),
 	// the reviewed deep copies are Image/Figure elements, and what the image extractor stores there
